@@ -166,7 +166,9 @@ def gen_pipe(rng, big):
     return {"kind": "pipe", "X": X, "dtype": rng.choice(["int32", "int64"]), "ops": ops}
 
 
-R_GRID = [-0.99, -0.9, -0.5, -0.3, -0.1, 0.0, 0.1, 0.3, 0.5, 0.8, 0.9, 0.99, 0.999]
+R_GRID = [-0.99, -0.9, -0.5, -0.3, -0.1, 0.0, 0.1, 0.3, 0.5, 0.8, 0.9, 0.99, 0.999, 0.9995, -0.9999, 1 - 1e-9]
+# edge inputs: r close to +-1 (1 - 1e-3 .. 1 - 1e-12), tiny |r|, exactly 0
+R_EDGE = [s_ * (1 - 10.0 ** -k_) for k_ in range(3, 13) for s_ in (1, -1)] + [0.9995, -0.9999, 0.999999, 1e-12, -1e-12, 1e-6, -1e-9, 0.0]
 
 
 def nonconstant_matrix(rng, nr, nc):
@@ -177,15 +179,26 @@ def nonconstant_matrix(rng, nr, nc):
 
 
 def gen_corr(rng, big):
-    nr = rng.choice([5, 6, 7, 10, 20, 50]) if not big else rng.choice([5, 50, 200, 500])
+    nr = rng.choice([3, 4, 5, 6, 7, 10, 20, 50]) if not big else rng.choice([3, 5, 50, 200, 500])
     if rng.random() < 0.08:
         nr = rng.choice([200, 500])
+    edge = rng.random() < 0.35
+    if edge and rng.random() < 0.4:
+        nr = rng.randint(250, 300)
     nc = rng.randint(1, 4)
     X = nonconstant_matrix(rng, nr, nc)
-    r = rng.choice(R_GRID) if rng.random() < 0.7 else round(rng.uniform(-0.99, 0.99), 3)
+    if edge:
+        r = rng.choice(R_EDGE)
+    else:
+        r = rng.choice(R_GRID) if rng.random() < 0.7 else round(rng.uniform(-0.99, 0.99), 3)
     num, den = float(r).as_integer_ratio()
-    return {"kind": "corr", "X": X, "dtype": rng.choice(["int32", "int64"]), "idx": gen_idx(rng, nc, 1, 3, allow_neg=False),
+    case = {"kind": "corr", "X": X, "dtype": rng.choice(["int32", "int64"]), "idx": gen_idx(rng, nc, 1, 3, allow_neg=False),
             "r": [num, den], "seed": rng.randint(0, 10 ** 6)}
+    if rng.random() < 0.03:
+        # two rows: any two non-constant 2-vectors correlate at +-1, so "correlation r" with |r| < 1 cannot hold; observed only
+        case["X"] = nonconstant_matrix(rng, 2, nc)
+        case["probe"] = "two_rows"
+    return case
 
 
 def dyadic_dist(rng, n, denom=16):
@@ -928,6 +941,18 @@ def pearson(xs, ys):
     return sxy / math.sqrt(sxx * syy)
 
 
+def pearson_gap_exact(ys, xs):
+    """(1 - rho^2, sign of the covariance) in exact rational arithmetic"""
+    Y = [Fraction(v) for v in ys]
+    Xs = [Fraction(v) for v in xs]
+    n = len(Y)
+    my, mx = sum(Y) / n, sum(Xs) / n
+    sxy = sum((a - mx) * (b - my) for a, b in zip(Xs, Y))
+    sxx = sum((a - mx) ** 2 for a in Xs)
+    syy = sum((b - my) ** 2 for b in Y)
+    return 1 - sxy * sxy / (sxx * syy), (1 if sxy > 0 else -1)
+
+
 def judge(case, res, val, ctx, stats):
     kind = case["kind"]
     out = []
@@ -1005,11 +1030,25 @@ def judge(case, res, val, ctx, stats):
                 bad("C20_corr correspondence", "correlated feature is finite", [str(c) for c in col][:5])
                 continue
             rho = pearson([float(c) for c in col], [float(X[i][j]) for i in range(nr)])
+            if case.get("probe") == "two_rows":
+                stats.setdefault("probe", {})["corr_two_rows_rho"] = rho
+                continue
             dev = abs(rho - r) if rho == rho else float("inf")
             worst = max(worst, dev)
             if not dev <= TOL_CORR:
                 bad("C20_corr correspondence", "pearson(correlated feature, source) = r within 1e-9 (added column %d, source %d)" % (t, j),
                     rho, r)
+            elif abs(r) >= 0.99:
+                # close to +-1 the absolute tolerance says little: compare 1 - rho^2 with 1 - r^2, both computed EXACTLY in
+                # rationals from the doubles, relative tolerance 1e-6 (the unchanged code achieves <= 5e-10 at 1-1e-3 .. 1-1e-12)
+                gap, sgn = pearson_gap_exact(col, [X[i][j] for i in range(nr)])
+                want = 1 - frac(case["r"]) ** 2
+                rel = abs(gap - want) / want
+                stats["corr_worst_rel_gap_near_1"] = max(stats.get("corr_worst_rel_gap_near_1", 0.0), float(rel))
+                if rel > Fraction(1, 10 ** 6) or (sgn > 0) != (r > 0):
+                    bad("C20_corr correspondence", "1 - pearson^2 = 1 - r^2 within 1e-6 relative for |r| >= 0.99 (added column %d, source %d): "
+                        "the feature has the REQUESTED correlation also close to +-1" % (t, j), {"1-rho^2": float(gap), "rho": rho},
+                        {"1-r^2": float(want), "r": r})
         stats["corr_worst"] = max(stats.get("corr_worst", 0.0), worst)
         return out
     modes = stats.get("_modes") or {"cum": False, "honour": False}
